@@ -124,6 +124,7 @@ type fn struct {
 	refs                  map[string]bool
 	needRead, needWrite   bool
 	text, err             string
+	stext, serr           string // the streaming translation of a reader function (and why there is none)
 }
 
 type mapEntry struct {
@@ -411,9 +412,24 @@ type tr struct {
 	f      *fn
 	env    map[string]string // Go variable → Go type
 	stream string            // Lean name of the reader/writer state inside this function ("" if none)
-	monad  string            // "Err" | "HErr"
+	monad  string            // "Err" | "HErr" | "SErr" (stream mode)
+	sm     bool              // stream mode: the reader is any byte source `S : Src σ` (namespace GenS)
 	// inside an arm `case geom.T:` of a type switch on g: "g.(geom.T)" → (bound variable, its type)
 	asserted map[string][2]string
+}
+
+// suffix of the binary.Read primitives / loop combinators in stream mode
+func (t *tr) sfx() string {
+	if t.sm {
+		return "S S"
+	}
+	return ""
+}
+func (t *tr) lsfx() string {
+	if t.sm {
+		return "S"
+	}
+	return ""
 }
 
 func (t *tr) local(name string) string {
@@ -732,13 +748,13 @@ func (t *tr) call(c *ast.CallExpr) effect {
 		var text string
 		switch ty {
 		case "uint8":
-			text = "binReadU8 " + ord + " bs"
+			text = "binReadU8" + t.sfx() + " " + ord + " bs"
 		case "uint32":
-			text = "binReadU32 " + ord + " bs"
+			text = "binReadU32" + t.sfx() + " " + ord + " bs"
 		case "geom.Point":
-			text = "binReadPoint " + ord + " bs"
+			text = "binReadPoint" + t.sfx() + " " + ord + " bs"
 		case "[]geom.Point":
-			text = "binReadPoints " + ord + " " + id.Name + " bs"
+			text = "binReadPoints" + t.sfx() + " " + ord + " " + id.Name + " bs"
 		default:
 			fail("binary.Read into a %s", ty)
 		}
@@ -808,6 +824,12 @@ func (t *tr) call(c *ast.CallExpr) effect {
 		fail("call %s: argument count", show(c))
 	}
 	head := g.lean
+	if t.sm && g.kind != "reader" {
+		fail("call of %s on the streaming path", fun)
+	}
+	if t.sm && g.lean != "Read" {
+		head += "S S"
+	}
 	if g.lean == "Read" || g.lean == "Write" {
 		// inside a body these names are the parameter standing for the Go function
 	} else {
@@ -827,7 +849,7 @@ func (t *tr) call(c *ast.CallExpr) effect {
 		}
 		if t.isReaderVar(c.Args[0]) {
 			e = effect{text: head + rest + " bs", kind: "streamval", valType: g.results[0], stream: "bs"}
-		} else if nb, ok := c.Args[0].(*ast.CallExpr); ok && show(nb.Fun) == "bytes.NewBuffer" && len(nb.Args) == 1 {
+		} else if nb, ok := c.Args[0].(*ast.CallExpr); ok && !t.sm && show(nb.Fun) == "bytes.NewBuffer" && len(nb.Args) == 1 {
 			e = effect{text: "dropRest (" + head + rest + " " + t.arg(nb.Args[0], "[]byte") + ")", kind: "val", valType: g.results[0]}
 		} else {
 			fail("call %s: the source is neither the function's reader nor a fresh buffer", show(c))
@@ -1023,6 +1045,9 @@ func (t *tr) assign(x *ast.AssignStmt, next ast.Stmt, ind string) ([]string, int
 				fail("failed assertion returns %s, not UnexpectedGeometryError{%s}", show(ev), g)
 			}
 			t.declare(a, ty)
+			if t.sm {
+				return []string{ind + "let " + a + " ← liftS (" + as + " " + g + ")"}, 1, false
+			}
 			return []string{ind + "let " + a + " ← " + as + " " + g}, 1, false
 		}
 		if c, ok := x.Rhs[0].(*ast.CallExpr); ok && b == "err" {
@@ -1103,7 +1128,12 @@ func (t *tr) ifStmt(x *ast.IfStmt, ind string, lp *looping) ([]string, int, bool
 		}
 		k := t.arg(ix.Index, "uint32")
 		m := id.Name
-		if t.w.mapNeedsRead() {
+		if t.sm {
+			m = "(" + m + "S S)"
+			if t.w.mapNeedsRead() {
+				m = "(" + id.Name + "S S Read)"
+			}
+		} else if t.w.mapNeedsRead() {
 			m = "(" + m + " Read)"
 		}
 		lines := []string{ind + "match mapGet " + m + " " + k + " with", ind + "| some " + names[0] + " => do"}
@@ -1227,6 +1257,9 @@ func (t *tr) errReturn(r *ast.ReturnStmt) string {
 		if !isNilOrZero(z) {
 			fail("%s returns a value together with an error", show(r))
 		}
+	}
+	if t.sm {
+		return "throw (SErr.wkb " + t.errOf(r.Results[len(r.Results)-1]) + ")"
 	}
 	if t.monad != "Err" {
 		fail("%s in package hex", show(r))
@@ -1502,7 +1535,7 @@ func (t *tr) forStmt(x *ast.ForStmt, ind string, lp *looping) []string {
 					}
 				}
 				st := t.loopState(x.Body, nil)
-				lines := []string{ind + "let " + tuple(st) + " ← loopN " + n + " " + tuple(st) + " (fun " + tuple(st) + " => do"}
+				lines := []string{ind + "let " + tuple(st) + " ← loopN" + t.lsfx() + " " + n + " " + tuple(st) + " (fun " + tuple(st) + " => do"}
 				return append(lines, t.loopBody(x.Body, st, ind, lp)...)
 			}
 		}
@@ -1525,7 +1558,7 @@ func (t *tr) forStmt(x *ast.ForStmt, ind string, lp *looping) []string {
 	}
 	st := t.loopState(x.Body, first)
 	c := t.cond(x.Cond)
-	lines = append(lines, ind+"let "+tuple(st)+" ← whileLoop loopBudget (fun "+tuple(st)+" => decide ("+c+")) "+tuple(st)+" (fun "+tuple(st)+" => do")
+	lines = append(lines, ind+"let "+tuple(st)+" ← whileLoop" + t.lsfx() + " loopBudget (fun "+tuple(st)+" => decide ("+c+")) "+tuple(st)+" (fun "+tuple(st)+" => do")
 	lines = append(lines, t.loopBody(x.Body, st, ind, lp)...)
 	if first != nil {
 		delete(t.env, first[0])
@@ -1550,7 +1583,7 @@ func (t *tr) rangeStmt(x *ast.RangeStmt, ind string, lp *looping) []string {
 		}
 	}
 	t.declare(v, el)
-	lines := []string{ind + "let " + tuple(st) + " ← forRange " + xs + " " + tuple(st) + " (fun " + v + " " + tuple(st) + " => do"}
+	lines := []string{ind + "let " + tuple(st) + " ← forRange" + t.lsfx() + " " + xs + " " + tuple(st) + " (fun " + v + " " + tuple(st) + " => do"}
 	lines = append(lines, t.loopBody(x.Body, st, ind, lp)...)
 	delete(t.env, v)
 	return lines
@@ -1588,13 +1621,30 @@ func (w *world) mapNeedsRead() bool {
 	return false
 }
 
-func (w *world) translate(f *fn) {
-	t := &tr{w: w, f: f, env: map[string]string{}, monad: "Err"}
+func (w *world) translate(f *fn) { f.text = w.translateMode(f, false) }
+
+// the streaming path: the same Go text of a reader function, translated with the reader as ANY byte source
+// `S : Src σ` (every binary.Read = one io.ReadFull of the value's size from S, then the in-memory decoding)
+func (w *world) translateStream(f *fn) { f.stext = w.translateMode(f, true) }
+
+func (w *world) translateMode(f *fn, sm bool) string {
+	t := &tr{w: w, f: f, env: map[string]string{}, monad: "Err", sm: sm}
 	if f.pkg == "hex" {
 		t.monad = "HErr"
 	}
+	if sm {
+		t.monad = "SErr"
+		if f.kind != "reader" {
+			fail("not a reader function")
+		}
+	}
 	sig := "def " + f.lean
-	if f.needRead {
+	if sm {
+		sig += "S {σ : Type} (S : Stream.Src σ)"
+	}
+	if f.needRead && sm {
+		sig += " (Read : ReadFnS σ)"
+	} else if f.needRead {
 		sig += " (Read : ReadFn)"
 	}
 	if f.needWrite {
@@ -1614,10 +1664,13 @@ func (w *world) translate(f *fn) {
 	doc := "/-- `" + f.file + "`: `" + show(f.decl.Type) + "` as `" + f.name + "` -/\n"
 	switch f.kind {
 	case "pure":
-		f.text = doc + sig + " : " + lt(f.results[0]) + " :=\n  " + t.pureBody(f.decl.Body.List)
-		return
+		return doc + sig + " : " + lt(f.results[0]) + " :=\n  " + t.pureBody(f.decl.Body.List)
 	case "reader":
-		sig += " (bs : Bytes) : Except Err (" + lt(f.results[0]) + " × Bytes) := do"
+		if sm {
+			sig += " (bs : σ) : Except SErr (" + lt(f.results[0]) + " × σ) := do"
+		} else {
+			sig += " (bs : Bytes) : Except Err (" + lt(f.results[0]) + " × Bytes) := do"
+		}
 	case "writer":
 		sig += " : Except Err Bytes := do"
 	case "plain":
@@ -1627,7 +1680,7 @@ func (w *world) translate(f *fn) {
 	if !term {
 		fail("the body does not end in a return")
 	}
-	f.text = doc + sig + "\n" + strings.Join(lines, "\n")
+	return doc + sig + "\n" + strings.Join(lines, "\n")
 }
 
 // text that goes into a Lean string literal or comment (the orchestrator greps the Lean sources for
@@ -1774,10 +1827,17 @@ func extract(repo string) int {
 		}
 		if !guard(who, func() { w.translate(f) }) {
 			f.err = failures[len(failures)-1].msg
+			continue
+		}
+		// the streaming path (wkb.Read behind any io.Reader): every reader function a second time
+		if f.kind == "reader" {
+			if !guard(f.name+" on the streaming path ("+f.file+")", func() { w.translateStream(f) }) {
+				f.serr = failures[len(failures)-1].msg
+			}
 		}
 	}
 	// the dispatch table
-	mapText := ""
+	mapText, mapTextS := "", ""
 	if reach["#map"] {
 		guard("init ("+w.mapName+")", func() {
 			if w.initErr != "" {
@@ -1804,6 +1864,21 @@ func extract(repo string) int {
 				sig += " (Read : ReadFn)"
 			}
 			mapText = "/-- the dispatch table filled by `init()`: its assignments, in order -/\n" + sig + " : List (Nat × ReaderFn) :=\n  [" + strings.Join(es, ",\n   ") + "]"
+			// the same table for the streaming path
+			var ss []string
+			for _, e := range w.mapElems {
+				g := w.funcs[e.val]
+				v := "(" + g.lean + "S S)"
+				if g.needRead {
+					v = "(" + g.lean + "S S Read)"
+				}
+				ss = append(ss, "("+t.arg(e.key, "uint32")+", "+v+")")
+			}
+			ssig := "def " + w.mapName + "S {σ : Type} (S : Stream.Src σ)"
+			if w.mapNeedsRead() {
+				ssig += " (Read : ReadFnS σ)"
+			}
+			mapTextS = "/-- the dispatch table on the streaming path -/\n" + ssig + " : List (Nat × ReaderFnS σ) :=\n  [" + strings.Join(ss, ",\n   ") + "]"
 		})
 	}
 	// order: definitions before uses
@@ -1838,7 +1913,7 @@ func extract(repo string) int {
 	}
 
 	var b strings.Builder
-	b.WriteString("import GeomV.C05.GenLib\n/-!\nREGENERATED on every run of `bin/check C05` by harness/cmd/c05/extract.go from encoding/wkb/*.go and\nencoding/hex/hex.go of the tree under test — do not edit.  `GeomV/C05/Tie.lean` proves these definitions\nequal to the hand-written model (`GeomV/C05/Model.lean`), so the C05 theorems are re-checked against\nwhat the source says now.  Vocabulary and its meaning: `GeomV/C05/GenLib.lean`.\n")
+	b.WriteString("import GeomV.C05.GenLibS\n/-!\nREGENERATED on every run of `bin/check C05` by harness/cmd/c05/extract.go from encoding/wkb/*.go and\nencoding/hex/hex.go of the tree under test — do not edit.  `GeomV/C05/Tie.lean` proves these definitions\nequal to the hand-written model (`GeomV/C05/Model.lean`), so the C05 theorems are re-checked against\nwhat the source says now.  Vocabulary and its meaning: `GeomV/C05/GenLib.lean`.\n")
 	for _, u := range w.unreach {
 		b.WriteString("not reachable from Read/Decode/Write/Encode, not translated: " + sanitize(u) + "\n")
 	}
@@ -1874,6 +1949,26 @@ func extract(repo string) int {
 			b.WriteString("\ntheorem untranslatable_" + strings.Fields(fl.who)[0] + " : \"" + sanitize(fl.who+": "+fl.msg) + "\" = \"\" := by decide\n")
 		}
 	}
+	// the streaming path: the reader functions once more, over any byte source (GenLibS.lean)
+	b.WriteString("\n/-! ### the streaming path: the same Go functions with the `io.Reader` as ANY byte source `S : Stream.Src σ`\n(every `binary.Read` = one `io.ReadFull` of the value's size from `S`, then the in-memory decoding: `GenLibS.lean`) -/\n")
+	for _, n := range order {
+		if n == "#map" {
+			if mapTextS != "" {
+				b.WriteString("\n" + mapTextS + "\n")
+			}
+			continue
+		}
+		f := w.funcs[n]
+		if f.kind != "reader" || f.err != "" {
+			continue
+		}
+		if f.serr != "" {
+			b.WriteString("\ntheorem untranslatable_" + f.lean + "S : \"" + sanitize(f.name+" on the streaming path: "+f.serr) + "\" = \"\" := by decide\n")
+			continue
+		}
+		b.WriteString("\n" + f.stext + "\n")
+	}
+	b.WriteString(footerS)
 	b.WriteString(footer)
 	fmt.Print(b.String())
 	if len(failures) > 0 {
@@ -1893,6 +1988,13 @@ func mapHas(w *world, name string) bool {
 	}
 	return false
 }
+
+const footerS = `
+/-- ` + "`wkb.Read`" + ` behind any byte source, the recursion unrolled ` + "`fuel`" + ` times -/
+def readS {σ : Type} (S : Stream.Src σ) : Nat → ReadFnS σ
+  | 0 => fun _ => .error (.wkb .fuel)
+  | fuel+1 => ReadS S (readS S fuel)
+`
 
 const footer = `
 /-! The recursion Read → reader → Read and Write → writer → Write, unrolled (fixed text of the translator). -/
